@@ -80,7 +80,7 @@ def main():
                 rc, out = -9, "timeout"
             sigs = [l.strip()[:200] for l in out.split("\n") if l.strip().startswith("signature=")]
             res["checks"][c] = {"exit": rc, "violation": "VIOLATION" in out, "wall": round(time.time() - t, 1),
-                                "signatures": sigs[:6], "tail": "" if rc in (0, 1) else out[-400:]}
+                                "signatures": sigs[:6], "tail": "" if (rc == 0 or "VIOLATION" in out) else out[-600:]}
         res["detected_by"] = [c for c, v in res["checks"].items() if v["exit"] == 1 and v["violation"]]
     finally:
         shutil.rmtree(scratch, ignore_errors=True)
